@@ -688,7 +688,7 @@ func vErrClass(err error) string {
 		return "deadline"
 	case errors.Is(err, ErrShutdownNonEstablished):
 		return "shutdown-nonestablished"
-	case errors.Is(err, ErrShutdownIncomplete):
+	case strings.Contains(err.Error(), "before the shutdown sequence completed"): // ErrShutdownIncomplete (by text: the harness must also build against a tree without it)
 		return "shutdown-incomplete"
 	case errors.Is(err, ErrAssociationClosedBeforeConn):
 		return "closed-before-conn"
